@@ -626,3 +626,131 @@ class C15Rebuild(Monitor):
                 return [('C15: after reset, evaluation (%s) did not rebuild '
                          '%s' % (res.status, missing),
                          {'monitor': 'C15', 'clause': 'not_rebuilt'})]
+
+
+WAIT_TEXTS = ('@robot wait', '/wait')
+
+
+def hold_state(hist, pid):
+    """Harness-side knowledge of the holds on a PR: (kind, detail) or None.
+    Only the comment forms the harness itself posts are recognised."""
+    import re
+    w = hist.world
+    deps = []
+    wait = False
+    for _, user, text in w.comments(pid):
+        if user == ROBOT:
+            continue
+        t = text.strip()
+        if t in WAIT_TEXTS:
+            wait = True
+        m = re.match(r'^@robot after_pull_request=(\S+)$', t)
+        if m:
+            deps.append(m.group(1))
+    if wait:
+        return ('wait', None)
+    states = {p[0]: p[4] for p in w.all_prs()}
+    for d in deps:
+        if not d.isdigit():
+            continue          # ignored on purpose by the code: EITHER
+        n = int(d)
+        if n not in states:
+            return ('dep_unknown', n)
+        if states[n] != 'MERGED':
+            return ('dep_' + states[n].lower(), n)
+    return None
+
+
+class C12Hold(Monitor):
+    """While a hold is present nothing is created or merged for that PR."""
+    name = 'C12'
+
+    def before_job(self, hist, job, step):
+        w = hist.world
+        heads = w.heads()
+        self.held = {}
+        for pid, info in w.prs.items():
+            if info.get('foreign'):
+                continue
+            h = hold_state(hist, pid)
+            if h:
+                queued = any(n.startswith('q/w/%d/' % pid) for n in heads)
+                has_w = any(n.startswith('w/') and
+                            n.split('/', 2)[2] == info['src'] for n in heads)
+                self.held[pid] = (h, queued, has_w)
+
+    def after_job(self, hist, res, step):
+        w = hist.world
+        out = []
+        for pid, (h, queued, has_w) in sorted(self.held.items()):
+            info = w.prs[pid]
+            src = info['src']
+            hist.count('c12_job_with_hold_' + h[0])
+            hist.flags.add('c12_hold')
+            touched = []
+            for tx in res.txs:
+                for a, old, new, ref in tx:
+                    if a != 'berte' or not ref.startswith(H) or new == Z40:
+                        continue
+                    n = ref[len(H):]
+                    if (n.startswith('w/') and n.split('/', 2)[2] == src) \
+                            or n.startswith('q/w/%d/' % pid):
+                        touched.append(n)
+            merged_now = False
+            if src in res.heads1 and info['dst'] in res.heads1 and \
+                    info['dst'] in res.heads0 and src in res.heads0:
+                before = w.is_ancestor(res.heads0[src],
+                                       res.heads0[info['dst']])
+                after = w.is_ancestor(res.heads1[src],
+                                      res.heads1[info['dst']])
+                merged_now = after and not before and any(
+                    a == 'berte' for tx in res.txs for a, _, _, _ in tx)
+            if queued:
+                if touched or merged_now:
+                    hist.count('c12_stat_hold_added_after_queued_progressed')
+                continue
+            if touched:
+                out.append((
+                    'C12: PR #%d is held (%s) but job %s (%s) created/updated '
+                    '%s' % (pid, h, job_desc(res.job), res.status, touched),
+                    {'monitor': 'C12', 'clause': 'refs_while_held',
+                     'hold': h[0]}))
+            if merged_now:
+                out.append((
+                    'C12: PR #%d is held (%s) but job %s (%s) merged it' %
+                    (pid, h, job_desc(res.job), res.status),
+                    {'monitor': 'C12', 'clause': 'merged_while_held',
+                     'hold': h[0]}))
+        return out[:2]
+
+
+class C12Foreign(Monitor):
+    """PRs Bert-E does not handle get no comment and cause no ref change."""
+    name = 'C12f'
+
+    def after_job(self, hist, res, step):
+        w = hist.world
+        if type(res.job).__name__ != 'PullRequestJob':
+            return
+        pid = res.job.pull_request.id
+        info = w.prs.get(pid)
+        if not info or not info.get('foreign'):
+            return
+        hist.count('c12_foreign_evaluations')
+        hist.flags.add('c12_foreign')
+        out = []
+        if res.host0 != res.host1:
+            out.append((
+                'C12: PR #%d (%s -> %s) is not handled by Bert-E but the host '
+                'state changed (status %s): %r' %
+                (pid, info['src'], info['dst'], res.status,
+                 [c for c in res.host1['comments'].get(pid, [])
+                  if c not in res.host0['comments'].get(pid, [])][:1]),
+                {'monitor': 'C12', 'clause': 'foreign_pr_commented'}))
+        if any(a == 'berte' for tx in res.txs for a, _, _, _ in tx):
+            out.append((
+                'C12: PR #%d (%s -> %s) is not handled by Bert-E but refs '
+                'changed (status %s)' % (pid, info['src'], info['dst'],
+                                         res.status),
+                {'monitor': 'C12', 'clause': 'foreign_pr_refs'}))
+        return out
